@@ -2,7 +2,7 @@
 use std::collections::HashMap;
 use std::io::Read;
 
-use pgp::composed::{Deserializable, Message, MessageBuilder, PlainSessionKey, SignedSecretKey, TheRing};
+use pgp::composed::{Message, MessageBuilder, PlainSessionKey, SignedSecretKey, TheRing};
 use pgp::crypto::aead::{AeadAlgorithm, ChunkSize};
 use pgp::crypto::hash::HashAlgorithm;
 use pgp::crypto::sym::SymmetricKeyAlgorithm;
